@@ -47,6 +47,8 @@
 #include <limits.h>
 #include <errno.h>
 
+#include <igris/util/errno.h>
+
 uintmax_t strtoumax(const char *restrict nptr, char **restrict endptr,
 		int base) {
 	const char *s = nptr;
